@@ -65,7 +65,7 @@ def run_case(case) -> list[Failure]:
     head, body = respgen.frame(content, case)
     decode = bool(case["decode"])
     expected = payload if decode else content
-    if case.get("cl_list") and case["framing"] != "cl":
+    if (case.get("cl_list") and case["framing"] != "cl") or case.get("hexfmt", "x") not in ("x", "X", "04x"):
         raise core.InvalidCase
     # (http.client cannot parse "N, N" and reads such a body until the server closes, so the server closes)
     srv = respgen.OneShot(head + body, case.get("seg"), eof=(case["framing"] == "close" or bool(case.get("cl_list"))))
@@ -231,6 +231,8 @@ def _hyp():
         c = mk(n, draw(st.integers(0, 50)), cod, members, framing, cs, ext, seg, decode, ops, t, via)
         if framing == "cl" and draw(st.integers(0, 4)) == 0:
             c["cl_list"] = True
+        if framing == "chunked":
+            c["hexfmt"] = draw(st.sampled_from(["x", "x", "X", "04x"]))
         if framing == "chunked" and respgen.families(c) == {"A", "B"}:
             c["ops"] = []  # keep one reader family on a chunked response
             c["_dropped_mix"] = True
